@@ -202,37 +202,124 @@ def run(rep, tier, root=None):
     f3, field3, N3, rets3 = forms["lensAgainst"]
     _one(rep, f3, rets3, lambda a: oracle("lens_focal_plane", a), "lens_focal_plane")
 
-    # two-step == two chained one-step propagations (sibling agreement), on every path
-    f2, field2, N2, rets2 = forms["twoStepFresnel"]
+    # two-step == two chained one-step evaluations of the Fresnel integral (sibling agreement), on every path.  Each step uses
+    # either the forward kernel exp(-2i pi x.f) (what oneStepFresnel does) or the mirrored one exp(+2i pi x.f), written
+    # conj(oneStep(conj(U), -Dz)); which of the four combinations a path is, is found by matching.
+    f2 = ix.func(MOD, "twoStepFresnel")
     p2 = f2.params
     U2 = Rat.sym(p2[0], ("array", "field", "complex"))
     w2, a1, a2, zz = [Rat.sym(x) for x in p2[1:5]]
-    m = a2 / a1
+    N2 = forms["twoStepFresnel"][2]
+    I2s = Interp(ix, square=True)
+    paths2 = I2s.paths(f2, I2s.symbolic_args(f2, {p2[0]: ("array", "field", "complex")}), split="deep")
     n_two = 0
-    for conds, v in rets2:
+
+    def one_step(U_, d_in, Dz, tau):
+        if tau > 0:
+            r_ = I.returns(f1, [U_, w2, d_in, Dz])
+            return r_[0][1] if len(r_) == 1 else None
+        r_ = I.returns(f1, [U_.conj(), w2, d_in, -Dz])
+        return r_[0][1].conj() if len(r_) == 1 and isinstance(r_[0][1], Rat) else None
+    for conds, cnf, v in paths2:
         n_two += 1
         tag = "%s[%s]" % (f2.fq, "; ".join(conds) or "main path")
-        if has_unknown(v):
+        if not isinstance(v, Rat) or has_unknown(v):
             rep.unknown("G5.two-step", tag, "unrecognised constructs", f2.where())
             continue
-        Dz1 = zz / (1 + m) if any("ZeroDivisionError" in c for c in conds) else zz / (1 - m)
+        unit = any("ZeroDivisionError" in c for c in conds)
+        m = a2 / a1
+        Dz1 = zz / (1 + m) if unit else zz / (1 - m)
         Dz2 = zz - Dz1
-        d1a = w2 * Dz1 / (N2 * a1)
-        step1 = I.returns(f1, [U2, w2, a1, Dz1])
-        if len(step1) != 1:
-            rep.unknown("G5.two-step", tag, "oneStepFresnel has several paths", f2.where())
+        matched = None
+        for t1 in (1, -1):
+            for t2 in (1, -1):
+                # the intermediate grid is labelled with a positive spacing |lambda Dz1 / (N d1)|: in the chain its sign is the
+                # orientation of step 1
+                d1a = w2 * Dz1 / (N2 * a1) * t1
+                s1 = one_step(U2, a1, Dz1, t1)
+                s2 = one_step(s1, d1a, Dz2, t2) if s1 is not None else None
+                if s2 is None:
+                    continue
+                want = s2.subst(lambda a: N2 if (isinstance(a, Fn) and a.name == "shape") else None)
+                if same_value(_drop_abs(v), _drop_abs(want)):
+                    matched = (t1, t2)
+                    break
+            if matched:
+                break
+        if matched is None:
+            s1 = one_step(U2, a1, Dz1, 1)
+            want = one_step(s1, w2 * Dz1 / (N2 * a1), Dz2, 1)
+            want = want.subst(lambda a: N2 if (isinstance(a, Fn) and a.name == "shape") else None)
+            check_equal(rep, "G5.two-step", tag + " == oneStep(oneStep(U, d1, Dz1), d1a, Dz2)", v, want, f2.where(), what="twoStepFresnel")
             continue
-        # the intermediate field is an array on the same N x N grid
-        step2 = I.returns(f1, [step1[0][1], w2, d1a, Dz2])
-        want = step2[0][1]
-        # shape of the intermediate field is N as well
-        want = want.subst(lambda a: N2 if (isinstance(a, Fn) and a.name == "shape") else None)
-        check_equal(rep, "G5.two-step", tag + " == oneStep(oneStep(U, d1, Dz1), d1a, Dz2)", v, want, f2.where(),
-                    what="twoStepFresnel")
+        rep.ok("G5.two-step", tag + " == step(step(U, d1, Dz1), d1a, Dz2)", "kernels: %s, %s" % tuple("forward" if t > 0 else "mirrored" for t in matched))
+        # G7 orientation: sample l of a step's output sits at the true coordinate l * tau * lambda Dz / (N s_in), s_in the
+        # true (signed) spacing of its input samples.  After both steps the true spacing must be the +d2 the output is
+        # returned on, for every sign of the distances the path can be taken with.
+        t1, t2 = matched
+        pos_syms = {Sym(p2[1]), Sym(p2[2]), Sym(p2[3])} | set(x for x in N2.atoms())
+        feas = _feasible_signs(cnf, Dz1, pos_syms)
+        if feas is None:
+            rep.unknown("G7.orientation", tag, "cannot decide the signs of the step distances on this path", f2.where())
+            continue
+        if not feas:
+            rep.ok("G7.orientation", tag, "path cannot be taken (its conditions on the step distances contradict Dz2/Dz1 = -d2/d1)", False)
+            continue
+        s_1 = w2 * Dz1 / (N2 * a1) * t1
+        s_2 = w2 * Dz2 / (N2 * s_1) * t2
+        ratio = s_2 / a2
+        if unit:
+            ratio = ratio.subst(lambda a: a1 if a == Sym(p2[3]) else None)
+        from ..plf import simplify_ratio
+        ratio = simplify_ratio(ratio)
+        rc = ratio.real_const() if isinstance(ratio, Rat) else None
+        rep.check(rc is not None and abs(rc - 1) < 1e-12, "G7.orientation", tag + ": output samples sit at +d2 * index (same orientation as the input and as angularSpectrum)",
+                  "the two chained Fresnel steps (%s, %s kernel) put output sample l at the coordinate %s * d2 * l: the field is returned "
+                  "rotated by 180 degrees on its grid (one of the two step distances is always negative - their ratio is -d2/d1 - and "
+                  "the forward transform is used for both), so twoStepFresnel and angularSpectrum disagree in orientation on the same grid"
+                  % ("forward" if t1 > 0 else "mirrored", "forward" if t2 > 0 else "mirrored", nf(ratio, 40)), f2.where())
     purity_obligations(rep, ix, [ix.func(MOD, n) for n in NPARAMS] + [ix.func("aotools.fouriertransform", n) for n in ("ft2", "ift2")],
                        "G6.pure", "composing or comparing propagators on the same input field gives different results depending on "
                        "which one ran first")
     rep.floor("two-step paths", n_two, 1)
+
+
+def _drop_abs(v):
+    """|x| -> x: the two-step normal forms contain the intermediate spacing only squared, or as the scale d1a^2 of ft2"""
+    if not isinstance(v, Rat):
+        return v
+    return v.subst(lambda a: a.args[0] if isinstance(a, Fn) and a.name == "abs" and len(a.args) == 1 and isinstance(a.args[0], Rat) else None)
+
+
+def _feasible_signs(cnf, ref, pos_syms):
+    """the signs (+1 / -1) the reference distance `ref` can have on a path whose conditions compare quantities X with 0,
+    every such X being a sign-definite multiple of `ref` (X / ref = c * product of positive symbols).  None if some
+    condition about a distance cannot be related to `ref`."""
+    from ..plf import simplify_ratio
+    out = []
+    for sg in (1, -1):
+        ok = True
+        for val, truth in cnf:
+            a = val.single_atom() if isinstance(val, Rat) else None
+            if not (isinstance(a, Fn) and a.name == "cmp" and a.args[0] in ("<", ">", "<=", ">=")):
+                continue
+            op, l, r_ = a.args
+            if isinstance(l, Rat) and l.is_zero():
+                l, r_ = r_, l
+                op = {"<": ">", ">": "<", "<=": ">=", ">=": "<="}[op]
+            if not (isinstance(r_, Rat) and r_.is_zero() and isinstance(l, Rat)):
+                continue
+            q = simplify_ratio(l / ref)
+            st = q.single_term() if isinstance(q, Rat) and q.den_is_one() else None
+            if st is None or abs(complex(st[0]).imag) > 0 or not all(at in pos_syms for at, e in st[1]):
+                return None
+            sx = sg * (1 if complex(st[0]).real > 0 else -1)
+            holds = {"<": sx < 0, ">": sx > 0, "<=": sx <= 0, ">=": sx >= 0}[op]
+            if holds != truth:
+                ok = False
+        if ok:
+            out.append(sg)
+    return out
 
 
 def _one(rep, f, rets, orc, oname):
